@@ -686,6 +686,9 @@ var Hook func(kind int, site string)
 // blocks); 0 = an ordinary task (PreLock yields with kind lock-wait).
 var RootProbe func() int
 
+// OnWouldBlock is told the site before WouldBlock is raised.
+var OnWouldBlock func(site string)
+
 // WouldBlock is the panic value raised when the scheduler's goroutine would
 // block on a lock held by a parked task.
 type WouldBlock struct{ Site string }
@@ -801,6 +804,9 @@ func PreLock(m any, read bool, site string) {
 		if rp := RootProbe; rp != nil {
 			switch rp() {
 			case 1:
+				if f := OnWouldBlock; f != nil {
+					f(site) // the panic below may be swallowed (fmt recovers panics of String methods)
+				}
 				panic(WouldBlock{Site: site})
 			case 2:
 				return
